@@ -172,8 +172,11 @@ def applicable(t: str, pattern: str, cname: str, value) -> str | None:
     # an optional fraction (".F" / ";F") directly followed by a literal '.' or ',' is ambiguous with the decimal separator
     for i, tok in enumerate(toks):
         if tok[0] == "field" and tok[1][0] == "F" and i > 0 and toks[i - 1] in (("lit", "."), ("lit", ";")):  # type: ignore[index]
-            if i + 1 < len(toks) and toks[i + 1][0] == "lit" and str(toks[i + 1][1])[:1] in ".,;":
-                return "optional-fraction-followed-by-separator"
+            if i + 1 < len(toks) and toks[i + 1][0] == "lit":
+                nxt_lit = str(toks[i + 1][1])
+                nxt_lit = facts["sep_time"] if nxt_lit == ":" else facts["sep_date"] if nxt_lit == "/" else nxt_lit
+                if nxt_lit[:1] in ".,;":
+                    return "optional-fraction-followed-by-separator"
         if tok[0] == "field" and tok[1][0] in "fF" and i > 0 and toks[i - 1][0] == "lit" and toks[i - 1][1] in (":", "/"):  # type: ignore[index]
             # the culture's time/date separator may itself be "." or ",", which the fraction formatter then owns
             sep = facts["sep_time"] if toks[i - 1][1] == ":" else facts["sep_date"]
